@@ -85,6 +85,22 @@ def cases(rng, tier):
                 continue
             prog = [["p1", ["assign", stmts[i][0], None, stmts[i][1], []]] for i in seq]
             yield {"op": "C14.infer", "tag": f"tiny{ln}", "src": prog, "funcs": [], "group": sorted(seq)}
+    # sums / products whose operands get their kinds in different sweeps: every order of small programs in which a
+    # sum is first seen with only SOME of its summands known (the rest arrives later, possibly through another phase)
+    R, Z = ["cf", "1.0"], ["cz", "1j"]
+    small = [
+        [["p1", "a", R], ["p1", "b", Z], ["p1", "y", ["+", [["v", "a"], ["v", "b"]]]]],
+        [["p1", "a", R], ["p1", "b", Z], ["p1", "y", ["+", [["v", "a"], ["v", "b"]]]], ["p1", "w", ["*", [["v", "y"], R]]]],
+        [["p0", "<p>c", Z], ["p1", "a", R], ["p1", "y", ["+", [["v", "a"], ["v", "<p>c"]]]]],
+        [["p1", "a", R], ["p1", "b", Z], ["p1", "c", R], ["p1", "y", ["+", [["v", "a"], ["v", "c"], ["v", "b"]]]], ["p1", "u", ["v", "y"]]],
+        [["p1", "a", R], ["p1", "a", Z], ["p1", "y", ["+", [["v", "a"], R]]], ["p1", "u", ["*", [["v", "y"], ["v", "y"]]]]],
+    ]
+    for prog0 in small:
+        prog = [[ph, ["assign", lhs, None, rhs, []]] for ph, lhs, rhs in prog0]
+        idx = list(range(len(prog)))
+        allp = [list(p_) for p_ in itertools.permutations(idx)]
+        for start in range(0, len(allp), 8):
+            yield {"op": "C14.infer", "tag": "late-summand", "src": prog, "funcs": [], "perms": allp[start:start + 8]}
     n = 400 if tier == "quick" else 8000
     for i in range(n):
         prog = kc.rand_program(rng)
@@ -121,12 +137,16 @@ def impl(case):
     r = kc.run_inference(case["src"], case["funcs"], case.get("order"))
     if "perms" in case:
         r["perm_tables"] = [kc.run_inference(case["src"], case["funcs"], o) for o in case["perms"]]
+        # the same orders with every phase handed over as a one-shot iterable (the table must not depend on the
+        # CONTAINER the statements arrive in)
+        r["gen_tables"] = [kc.run_inference(case["src"], case["funcs"], o, as_generators=True)
+                           for o in [case.get("order")] + list(case["perms"])]
     return r
 
 
 def normalise(out):
     if isinstance(out, dict):
-        out = {k: v for k, v in out.items() if k not in ("perm_tables", "printed")}
+        out = {k: v for k, v in out.items() if k not in ("perm_tables", "gen_tables", "printed")}
     return out
 
 
@@ -161,6 +181,15 @@ def oracle(case, out):
             return {"what": f"kind table depends on statement order: {_GROUPS[key][1]} -> {_GROUPS[key][0]}, "
                             f"{case['src']} -> {mine}", "sig": "order", "printed": bool(out.get("printed"))}
         return None
+    if "gen_tables" in out:
+        lists = [out] + list(out.get("perm_tables", []))
+        for o, t, tl in zip([case.get("order")] + list(case["perms"]), out["gen_tables"], lists):
+            t2 = t.get("ok", "no-table")
+            base = tl.get("ok", "no-table")
+            if t2 != base:
+                return {"what": f"kind table depends on the container the statements are presented in: lists -> {base}, "
+                                f"one-shot iterables (order {o}) -> {t2}", "sig": "container",
+                        "printed": bool(out.get("printed") or t.get("printed"))}
     if "perm_tables" in out:
         # the property speaks about the table produced: orders on which inference fails produce none;
         # which exception is raised first may legitimately depend on the order
